@@ -71,6 +71,7 @@ def run_directed(case, ctx):
         "rlshift-list": lambda: list(others) << v,
         "cast-float": lambda: v.cast(float), "cast-str": lambda: v.cast(str), "cast-int": lambda: v.cast(int), "cast-bool": lambda: v.cast(bool),
         "cast-date": lambda: v.cast(date), "cast-datetime": lambda: v.cast(datetime), "cast-complex": lambda: v.cast(complex),
+        "fillna-none": lambda: v.fillna(None), "fillna-none-twice": lambda: v.fillna(None).fillna(None),
         "fillna-scalar": lambda: v.fillna(s), "fillna-same": lambda: v.fillna(next((x for x in vals if x is not None), 0)),
         "dropna": lambda: v.dropna(), "isna": lambda: v.isna(), "copy": lambda: v.copy(), "slice": lambda: v[1:], "empty-slice": lambda: v[2:2],
         "mask": lambda: v[S.Vector(case["mask"])] if n else v[S.Vector([], dtype=bool)],
